@@ -197,6 +197,21 @@ class GR:
         return "fmt %s %s %s %s" % (self.config(), ",".join(ress), self.fns(), self.requests())
 
 
+def chain_cases(rng):
+    """LINEAR reference chains of 98..103 links (messages, terms, mixed; entered directly, through a select variant, as a
+    call argument): the deepest legal nesting of patterns - one more link than there may be placeables"""
+    for n in (98, 99, 100, 101, 102, 103, 130):
+        msgs = "c0 = end\n" + "".join("c%d = { c%d }\n" % (i, i - 1) for i in range(1, n + 1))
+        terms = "-d0 = end\n" + "".join("-d%d = { -d%d }\n" % (i, i - 1) for i in range(1, n + 1))
+        mixed = "e0 = end\n" + "".join(("e%d = a{ -e%d }\n" % (i, i - 1)) if i % 2 else ("-e%d = { e%d }b\n" % (i, i - 1)) for i in range(1, n + 1))
+        tops = ("top1 = { c%d }\ntop2 = x { $n ->\n [one] { c%d }\n *[other] { -d%d }\n } y\ntop3 = { IDENT(c%d) }{ -d%d }\ntop4 = { e%d }\n"
+                % (n, n - 1, n - 1, n - 1, n, n if n % 2 else n - 1))
+        for iso in (0, 1):
+            cfg = "iso=%d;tr=none;fm=none;fl=%s;loc=en" % (iso, rng.choice(["st", "conc"]))
+            reqs = ",".join("%s:~:%s=i1" % (hx(m), hx("n")) for m in ("top1", "top2", "top3", "top4", "c%d" % n, "c%d" % (n - 2)))
+            yield "fmt %s a:%s %s %s" % (cfg, hx(msgs + terms + mixed + tops), ",".join(FUNCS), reqs)
+
+
 def errlist_cases(rng):
     """the caller's error list (ONE list for the whole history, `ev=shared`) already holds hundreds of errors when a
     cyclic or exploding message is formatted: the cycle / the limit must still be reported"""
